@@ -14,8 +14,22 @@ def check_case(case):
     if case["fam"] == "mux":
         from ..muxsys import mux_spec
         r = Res()
-        spec = mux_spec([tuple(x) for x in case["inputs"]], case["pal"], case["rs_list"], below="deep", pol=case["pol"])
-        phys.solve_and_check(r, spec, ("C02",), case["ta"], holes=case.get("holes"))
+        spec = mux_spec([tuple(x) for x in case["inputs"]], case["pal"], case["rs_list"], below="deep", pol=case["pol"], ig_table=case.get("ig_table", False))
+        _, obs_ = phys.solve_and_check(r, spec, ("C02", "C07"), case["ta"], holes=case.get("holes"))
+        if obs_ is not None:   # per-source balance: each Subsystem row carries its source's power and the losses of exactly the rows it powers
+            from ..sysmodel import resolve, g
+            from ..common import close
+            d_ = resolve(spec)
+            for ph in spec["phases"]:
+                phys.check_phase(Res(), spec, obs_, ph, case["ta"], ("C07",), d_)   # fills _dom
+                for sname in [n for n in d_ if d_[n]["k"] == "Source"]:
+                    srow = obs_.get((ph, "Subsystem " + sname))
+                    if srow is None:
+                        continue
+                    el = sum(g(obs_[(ph, n)], "Loss (W)") for n in d_ if d_[n].get("_dom") == sname)
+                    if not close(g(srow, "Power (W)"), g(obs_[(ph, sname)], "Power (W)"), 1e-9, 1e-15) or not close(g(srow, "Loss (W)"), el, 1e-9, 1e-15):
+                        r.v(("C02.subsystem-balance",), "phase %r Subsystem %s: P %r L %r; its source delivers %r, the rows it powers lose %r" % (
+                            ph, sname, g(srow, "Power (W)"), g(srow, "Loss (W)"), g(obs_[(ph, sname)], "Power (W)"), el))
     elif case["fam"] == "phase":
         r = Res()
         spec = spec_from_forest(case["f"], case["pal"], case["pol"], case["srs"])
@@ -113,6 +127,8 @@ def gen_cases(tier):
         for k in (2, 3):
             for inputs in itertools.product(INPUT_OPTS if k == 2 or tier != "quick" else INPUT_OPTS[:4], repeat=k):
                 yield dict(fam="mux", inputs=[list(x) for x in inputs], pal=pal, rs_list=(k == 3), pol=1, srs=0.0, n=k, ta=25.0)
+                if k == 2:
+                    yield dict(fam="mux", inputs=[list(x) for x in inputs], pal=pal, rs_list=False, pol=1, srs=0.0, n=k, ta=25.0, ig_table=True)
                 # the same system reached through an edit history (a chain element may get a LOWER node index than its own source)
                 yield dict(fam="mux", inputs=[list(x) for x in inputs], pal=pal, rs_list=(k == 3), pol=1, srs=0.0, n=k, ta=25.0, holes="analysed")
         for n1 in (1, 2):
